@@ -83,3 +83,57 @@ Lemma resolve_name_relative i c : resolve_name i [c] = full_ns i ++ [c].
 Proof. reflexivity. Qed.
 Lemma resolve_name_absolute i a b r : resolve_name i (a :: b :: r) = a :: b :: r.
 Proof. reflexivity. Qed.
+
+(* ---- deprecation is transitive, also through arrays ---------------------------------------------------------- *)
+Definition elem_of (t : tx) : sx := match t with TxS s | TxFix s _ | TxVarI s _ | TxVarE s _ => s end.
+
+Lemma placement_deprecated e i depr st t :
+  PlacementOK e i depr st t -> ref_deprecated e i (elem_of t) = true -> depr = true.
+Proof. destruct t; cbn; tauto. Qed.
+
+Lemma in_attrs_of_field sec t n : In (SField t n) sec -> In (AField n t) (attrs_of sec).
+Proof. intros H. unfold attrs_of. apply in_flat_map. exists (SField t n). split; [exact H|left; reflexivity]. Qed.
+
+Theorem valid_deprecation_transitive e d sec t n :
+  Valid e d -> (sec = d_first d \/ In sec (d_more d)) -> In (SField t n) sec ->
+  ref_deprecated e (d_id d) (elem_of t) = true -> has_dir DDeprecated (d_first d) = true.
+Proof.
+  unfold Valid. intros [_ H] Hsec Hin Hd.
+  assert (forall first k, SectionRules e (d_id d) first (has_dir DDeprecated (d_first d)) k sec ->
+          has_dir DDeprecated (d_first d) = true) as K.
+  { intros first k R. destruct R as [_ _ _ _ _ _ _ _ S9 _ _ _].
+    rewrite Forall_forall in S9. specialize (S9 _ (in_attrs_of_field sec t n Hin)). cbn in S9.
+    eapply placement_deprecated; eauto. }
+  destruct (d_more d) as [|sec2 [|sec3 more]].
+  - destruct Hsec as [->|[]]. destruct H as [R _]. eapply K; eauto.
+  - destruct H as [R1 [R2 _]]. destruct Hsec as [->|[->|[]]]; eapply K; eauto.
+  - contradiction.
+Qed.
+
+(* ---- unions: at least two variants, no padding ----------------------------------------------------------------- *)
+Lemma in_attrs_of_pad sec w : In (SPad w) sec -> In (APad w) (attrs_of sec).
+Proof. intros H. unfold attrs_of. apply in_flat_map. exists (SPad w). split; [exact H|left; reflexivity]. Qed.
+
+Definition is_fieldb (s : stmt) : bool := match s with SField _ _ => true | _ => false end.
+
+Lemma layout_fields_count e i sec :
+  (forall w, ~ In (SPad w) sec) ->
+  length (layout_fields e i (attrs_of sec)) = length (filter is_fieldb sec).
+Proof.
+  induction sec as [|s r IH]; intros Hp; [reflexivity|].
+  assert (forall w, ~ In (SPad w) r) as Hr by (intros w Hw; apply (Hp w); right; exact Hw).
+  unfold attrs_of, layout_fields in *. cbn [flat_map filter]. rewrite flat_map_app, app_length, (IH Hr).
+  destruct s as [t n|w|t n v|d v]; cbn; try reflexivity.
+  exfalso. apply (Hp w). left. reflexivity.
+Qed.
+
+Theorem valid_union_shape e i first depr k sec :
+  SectionRules e i first depr k sec -> has_dir DUnion sec = true ->
+  (forall w, ~ In (SPad w) sec) /\ (2 <= length (filter is_fieldb sec))%nat.
+Proof.
+  intros [_ _ _ _ _ _ _ S8 S9 _ _ _] Hu.
+  assert (forall w, ~ In (SPad w) sec) as Hp.
+  { intros w Hw. rewrite Forall_forall in S9. specialize (S9 _ (in_attrs_of_pad sec w Hw)).
+    cbn in S9. rewrite Hu in S9. discriminate. }
+  split; [exact Hp|]. specialize (S8 Hu). rewrite (layout_fields_count e i sec Hp) in S8. lia.
+Qed.
